@@ -102,8 +102,17 @@ def lib_eval(rebound, c, L_callback=None, want_sim=False):
     if rt == "tree":
         sim.gravity = "tree"
         sim.opening_angle2 = c["theta2"]
-    for i in range(n):
-        sim.add(m=c["ms"][i], x=c["xs"][i], y=c["ys"][i], z=c["zs"][i])
+    if rt == "tree":
+        for i in range(n):
+            sim.add(m=c["ms"][i], x=c["xs"][i], y=c["ys"][i], z=c["zs"][i])
+    else:
+        # the Python layer rejects NaN arguments: add placeholders, then write the struct fields directly
+        for i in range(n):
+            sim.add(m=0.0, x=1e-3 * i, y=0.0, z=0.0)
+        if sim.N == n:
+            for i in range(n):
+                p = sim.particles[i]
+                p.m, p.x, p.y, p.z = c["ms"][i], c["xs"][i], c["ys"][i], c["zs"][i]
     if sim.N != n:
         raise RuntimeError("library refused a particle")
     sim.N_active = c["nact_raw"]
@@ -282,10 +291,66 @@ def enumerate_cases(rng, tier_thorough):
                 cases.append(base_case(rng, "jacobi", n, na, tp, 0))
         c = base_case(rng, "none", n, -1, 0, 0); c["acc0"] = [1.0] * (3 * n)
         cases.append(c)
-    for c in cases:
-        if c["routine"] == "jacobi":
-            c["soft"] = c["soft"]      # JACOBI ignores softening; keep it random on purpose
+    # ---- edges of the domain: degenerate values in every routine (the binary64 model must reproduce inf/NaN/-0 bit for bit)
+    nedge = 60 if not tier_thorough else 400
+    for rt in ("basic", "basic_ghost", "compensated", "jacobi", "merc0", "merc1", "trace0", "trace1", "none"):
+        for k in range(nedge if rt != "none" else 6):
+            n = rng.choice([1, 2, 2, 3, 3, 4, 6])
+            na = rng.choice([-1, 0, 1, n, rng.randint(0, n)])
+            tp = rng.randint(0, 1)
+            ign = rng.choice([0, 1, 2]) if rt in ("basic", "basic_ghost", "compensated") else 0
+            if rt == "basic_ghost":
+                c = base_case(rng, "basic", n, na, tp, ign, (1, 0, 1), "periodic", (2.0, 1, 2, 1))
+            else:
+                c = base_case(rng, rt, n, na, tp, ign)
+            if rt in ("merc0", "merc1"):
+                add_encounter(rng, c)
+            if rt in ("trace0", "trace1"):
+                add_encounter(rng, c, ks=True)
+            if rt == "none":
+                c["acc0"] = [1.0] * (3 * n)
+            edge_mutate(rng, c, boxed=(rt == "basic_ghost"))
+            c["_edge"] = True
+            cases.append(c)
     return cases
+
+
+EDGE_VALUES = [0.0, -0.0, 5e-324, -5e-324, 2.0 ** -1040, 1e-160, 1e160, 1e308, -1e308, float("inf"), float("-inf"), float("nan")]
+
+
+def edge_mutate(rng, c, boxed=False):
+    """degenerate corners: coincident particles, signed zeros, subnormal / huge / non-finite coordinates, masses, G, softening, dcrit"""
+    n = c["N"]
+    P = [c["xs"], c["ys"], c["zs"]]
+    for _ in range(rng.randint(1, 3)):
+        m = rng.choice(["coincide", "coincide", "zero", "coord", "scale", "mass", "G", "soft", "dcrit", "acc0", "origin"])
+        if m == "coincide" and n >= 2:
+            a, b = rng.sample(range(n), 2)
+            for q in P:
+                q[b] = q[a]
+        elif m == "origin":
+            a = rng.randrange(n)
+            for q in P:
+                q[a] = rng.choice([0.0, -0.0])
+        elif m == "zero":
+            P[rng.randrange(3)][rng.randrange(n)] = rng.choice([0.0, -0.0])
+        elif m == "coord" and not boxed:
+            P[rng.randrange(3)][rng.randrange(n)] = rng.choice(EDGE_VALUES)
+        elif m == "scale" and not boxed:
+            f = rng.choice([1e-160, 1e-170, 2.0 ** -1040, 1e150, 1e160, 1e306])
+            for q in P:
+                for i in range(n):
+                    q[i] *= f
+        elif m == "mass":
+            c["ms"][rng.randrange(n)] = rng.choice(EDGE_VALUES + [-1.0])
+        elif m == "G":
+            c["G"] = rng.choice(EDGE_VALUES + [-1.0])
+        elif m == "soft":
+            c["soft"] = rng.choice(EDGE_VALUES + [-1e-3, 1e200])
+        elif m == "dcrit" and "dcrit" in c:
+            c["dcrit"][rng.randrange(n)] = rng.choice(EDGE_VALUES + [-1.0])
+        elif m == "acc0" and c.get("acc0"):
+            c["acc0"][rng.randrange(3 * n)] = rng.choice(EDGE_VALUES)
 
 
 def L_cases(rng, k):
@@ -295,6 +360,9 @@ def L_cases(rng, k):
         d = rng.choice([rng.uniform(0, 1.3) * dc, rng.uniform(0.09, 0.11) * dc, rng.uniform(0.99, 1.01) * dc, 0.1 * dc, dc,
                         rng.uniform(0, 5)])
         out.append((d, dc))
+    ev = [0.0, -0.0, 5e-324, 1e-300, 1e300, float("inf"), float("-inf"), float("nan"), -1.0, 1.0, 0.1, 0.5]
+    for _ in range(max(20, k // 8)):
+        out.append((rng.choice(ev), rng.choice(ev)))
     return out
 
 
@@ -332,6 +400,8 @@ def tree_cases(rng, rebound, k, nmax):
         if n > 14:
             ghost = (min(ghost[0], 1), 0, 0)
         theta2 = rng.choice([0.0, 0.0, 0.25, 1.0, 0.01, rng.uniform(0, 2), 4.0])
+        if rng.random() < 0.12:
+            theta2 = rng.choice([-1.0, -0.0, 5e-324, 1e308, float("inf"), float("nan")])      # edges of the opening angle
         G = rng.choice([1.0, 6.674e-11, rng.uniform(0.1, 10)])
         soft = rng.choice([0.0, 0.0, 10 ** rng.uniform(-4, -1)])
         ms = gen_masses(rng, n)
@@ -344,6 +414,13 @@ def tree_cases(rng, rebound, k, nmax):
                 P.append([min(max(q[a] + rng.gauss(0, 1e-3) * half[a], -half[a] * 0.999), half[a] * 0.999) for a in range(3)])
             else:
                 P.append([rng.uniform(-half[a], half[a]) * 0.999 for a in range(3)])
+            if rng.random() < 0.06:       # exactly on a cell centre / border (dyadic fractions of the box), signed zero
+                a = rng.randrange(3)
+                P[-1][a] = rng.choice([0.0, -0.0, half[a] * 0.5, -half[a] * 0.25, half[a] * 0.125])
+        if rng.random() < 0.08:
+            ms = [0.0] * n                # massless cells: the division by the cell mass is skipped
+        if rng.random() < 0.08:
+            G = rng.choice([0.0, -1.0, float("inf"), 5e-324]); soft = rng.choice([soft, -1e-3, 1e200, 5e-324])
         sim = rebound.Simulation()
         sim.G = G; sim.softening = soft
         sim.configure_box(root, *layout)
@@ -408,11 +485,21 @@ def wh_cases(rng, rebound, k):
         soft = rng.choice([0.0, 0.0, 10 ** rng.uniform(-4, -1)])
         dt = rng.choice([0.01, -0.37, rng.uniform(-1, 1)])
         ms = gen_masses(rng, n)
-        if ms[0] == 0.0:
+        edge = rng.random() < 0.15
+        if ms[0] == 0.0 and not edge:
             ms[0] = 1.0
         acc = [[rng.gauss(0, 1) for _ in range(n)] for _ in range(3)]
         pm = [m * rng.choice([1.0, 1.0, rng.uniform(0.5, 2)]) for m in ms]     # p_j masses need not equal particle masses
         pq = [[rng.gauss(0, 3) for _ in range(n)] for _ in range(6)]
+        if edge:      # edges: zero / non-finite step, Jacobi position exactly at the origin, zero central mass, non-finite inputs
+            dt = rng.choice([0.0, -0.0, float("inf"), float("nan"), 5e-324, dt])
+            i = rng.randrange(n)
+            for cc in range(3):
+                pq[cc][i] = rng.choice([0.0, -0.0])
+            if rng.random() < 0.5:
+                acc[rng.randrange(3)][rng.randrange(n)] = rng.choice([float("inf"), float("nan"), 1e308, -0.0])
+            if rng.random() < 0.3:
+                pm[rng.randrange(n)] = rng.choice([0.0, float("inf"), float("nan"), -1.0])
         sim = rebound.Simulation()
         sim.G = G; sim.softening = soft
         for i in range(n):
